@@ -1,839 +1,40 @@
 """C14 - session ids are never adopted from clients; data persists until expiry.
 
-Model: lean/CpModel/SessionStore.lean, theorems: lean/CpProofs/C14.lean, driver: lean/Drv/C14.lean.
+Model: lean/CpModel/SessionStore.lean, theorems: lean/CpProofs/C14*.lean, driver: lean/Drv/C14.lean.
 
-Real code: the unmodified `cherrypy.lib.sessions` behind the sessions tool, driven through in-process
-WSGI calls (`cherrypy.Application(Root(), '', conf)(environ, start_response)`); cookies are carried by
-the harness.  Only *module globals naming primitives* are replaced for the duration of a history:
-`sessions.datetime` (logical clock, one tick = one minute), `sessions.time` (cookie dates; `sleep`
-turned into a harness error so lock contention cannot hang), `sessions.os` (`urandom` deterministic; `listdir` sorted), and
-`Session.generate_id` is wrapped (the documented override point for the id source) so that every draw is
-numbered and collisions with live ids can be injected.  The sweep is the
-real `clean_up()` of the first loaded session instance (the one the Monitor would call), invoked
-synchronously between requests (`clean_freq = 0`, no background thread).
+Real code: the unmodified `cherrypy.lib.sessions` (RamSession, FileSession, MemcachedSession over an in-memory
+`memcache` stand-in) behind the sessions tool, driven through in-process WSGI calls; cookies are carried by the
+harness.  See harness/c14_run.py (runner), c14_oracle.py (the statement), c14_gen.py (generators), c14_cov.py
+(which anchored lines ran).
 """
-import copy
 import datetime as _datetime
-import io
+import inspect
 import json
 import os as _os
 import pickle
-import re
 import shutil
-import sys
 import tempfile
-import time as _time
 
 from . import common
+from . import c14_cov
+from .c14_run import (BASE, UNKNOWN_BASE, VALS, run_history, run_monitor_scenario, model_timeout, make_val,  # noqa: F401
+                      _classify_blob)
+from .c14_oracle import oracle as _oracle
+from .c14_gen import gen_case, torn_cases, enum_small, overlap_cases, monitor_scenarios
 
 PROPERTY = 'C14'
-LEAN_TARGETS = ['CpProofs.C14', 'CpProofs.C14History', 'drv_c14']
+LEAN_TARGETS = ['CpProofs.C14', 'CpProofs.C14History', 'CpProofs.C14Ext', 'CpProofs.C14Conc', 'drv_c14']
 DRIVER = 'drv_c14'
-from .c14_meta import (THEOREMS, TRUSTED_BASE, ASSUMPTIONS, LEVEL, TECHNIQUE, LEVEL_TEXT,  # noqa: E402
+from .c14_meta import (THEOREMS, TRUSTED_BASE, ASSUMPTIONS, LEVEL, TECHNIQUE, LEVEL_TEXT,  # noqa: E402,F401
                        LEVEL_NOTE, RULE)
 
-BASE = _datetime.datetime(2020, 1, 1, 0, 0, 0)
-EPOCH = 1577836800.0
-HEX40 = re.compile(r'^[0-9a-f]{40}$')
-UNKNOWN_BASE = 1000000
 
-# picklable values a handler stores; index = the model's `Val`
-VALS = [0, 1, 'x', 'héllo' * 3, [1, [2, 3]], {'n': None, 't': (1, 2.5)}, b'\x00\xff\x80', -2 ** 70]
-
-ESCAPING = ['/../../x', 'a/../../../b', '/../..', '/../../etc/passwd', '../x', '/etc/passwd', '..']
-# damaged contents that are not a prefix of a pickle.  First group: classes `_load` maps to "no session";
-# second group (known finding F14d): other exception classes / well-formed pickles of another shape.
-GARBAGE_CONTRACT = [b'garbage', b'\x00', b'.', b'0', b'\x80\x05h\x00.', b'\x80\x05(K\x01d.', b'\xff' * 9]
-GARBAGE_OTHER = [b'\x80\xff.', b'Ix\n.', b'cnosuchmod\nx\n.', b'\x80\x05\x8c\x02\xff\xfe.', b'\x80\x05K\x01.',
-                 b'\x80\x05}K\x01\x86.']
-
-
-# ----------------------------------------------------------------------------------------------
-# primitives replaced through the module globals of cherrypy.lib.sessions
-# ----------------------------------------------------------------------------------------------
-class _World:
-    """Per-history environment shared by the shims, the probe handler and the runner."""
-
-    def __init__(self, case):
-        import random
-        self.clock = 0
-        self.draws = []                 # model id of every urandom draw, in order
-        self.id_of = {}                 # real id string -> model number
-        self.unknown = {}               # unknown cookie string -> model number
-        self.rnd = random.Random(case.get('idseed', 0))
-        self.dups = {int(k): int(v) for k, v in case.get('dups', [])}
-        self.live = lambda: []          # set by the runner: currently stored real ids, sorted
-        self.reads = []
-        self.first_loaded = None
-        self.last_dup = False
-        self.presented = set()
-
-    def urandom(self, n):
-        """Deterministic "random" bytes: draw number, a marker, a seeded tail."""
-        k = len(self.draws)
-        return (k + 1).to_bytes(4, 'big') + b'\xab' + bytes(self.rnd.randrange(256) for _ in range(n - 5))
-
-    def generate_id(self, inst, real):
-        """Stands in for `Session.generate_id` (the id source is a parameter of the property): numbers
-        every draw, normally returns what the real method returns, and on planned draws returns a *live*
-        id instead (never twice in a row, so the retry loop must terminate)."""
-        k = len(self.draws)
-        live = self.live()
-        if k in self.dups and live and not self.last_dup:
-            sid = live[self.dups[k] % len(live)]
-            self.draws.append(self.id_of[sid])
-            self.last_dup = True
-            return sid
-        self.last_dup = False
-        sid = real(inst)
-        if sid not in self.id_of:
-            self.id_of[sid] = k + 1
-        self.draws.append(self.id_of[sid])
-        return sid
-
-    def number(self, s):
-        """Model number of an arbitrary id string."""
-        if s in self.id_of:
-            return self.id_of[s]
-        if s not in self.unknown:
-            self.unknown[s] = UNKNOWN_BASE + len(self.unknown)
-        return self.unknown[s]
-
-
-W = [None]     # the current _World
-
-
-class _FakeDateTime(_datetime.datetime):
-    """`datetime.datetime` whose notion of the present is the logical clock (plain datetime objects are
-    returned, so pickles and comparisons are the ordinary ones)."""
-
-    @classmethod
-    def now(cls, tz=None):
-        t = BASE + _datetime.timedelta(minutes=W[0].clock)
-        return t if tz is None else t.replace(tzinfo=_datetime.timezone.utc).astimezone(tz)
-
-    @classmethod
-    def utcnow(cls):
-        return BASE + _datetime.timedelta(minutes=W[0].clock)
-
-    @classmethod
-    def today(cls):
-        return BASE + _datetime.timedelta(minutes=W[0].clock)
-
-
-class _DatetimeShim:
-    """Stands for the `datetime` module inside cherrypy.lib.sessions."""
-    datetime = _FakeDateTime
-
-    def __getattr__(self, name):
-        return getattr(_datetime, name)
-
-
-class _TimeShim:
-    @staticmethod
-    def time():
-        return EPOCH + 60.0 * W[0].clock
-
-    @staticmethod
-    def sleep(s):
-        raise common.HarnessError('session lock contention inside a sequential history')
-
-    def __getattr__(self, name):
-        return getattr(_time, name)
-
-
-class _OsShim:
-    path = _os.path
-
-    def __getattr__(self, name):
-        return getattr(_os, name)
-
-    @staticmethod
-    def urandom(n):
-        return W[0].urandom(n)
-
-    @staticmethod
-    def listdir(p):
-        return sorted(_os.listdir(p))
-
-
-def make_val(i):
-    return copy.deepcopy(VALS[i % len(VALS)])
-
-
-def val_index(v):
-    for i, w in enumerate(VALS):
-        if type(v) is type(w) and v == w:
-            return i
-    return 'X'
-
-
-def canon_dict(d):
-    """{real key: python value} -> {int key: value index}, or a marker for an alien shape."""
-    out = {}
-    try:
-        for k, v in d.items():
-            if isinstance(k, str) and re.match(r'^k\d+$', k):
-                out[int(k[1:])] = val_index(v)
-            else:
-                out[repr(k)] = 'X'
-    except Exception:
-        return {'?': 'X'}
-    return out
-
-
-_APP_CACHE = {}
-
-
-def _get_app(backend, timeout, path):
-    import cherrypy
-    from cherrypy.lib import sessions
-
-    class Root:
-        @cherrypy.expose
-        def index(self, ops=''):
-            w = W[0]
-            s = cherrypy.session
-            for tok in (ops.split(',') if ops else []):
-                f = tok.split('.')
-                if f[0] == 'r':
-                    w.reads.append(canon_dict(dict(s.items())))
-                elif f[0] == 'w':
-                    s['k' + f[1]] = make_val(int(f[2]))
-                elif f[0] == 'k':
-                    s.pop('k' + f[1], None)
-                elif f[0] == 'c':
-                    s.clear()
-                elif f[0] == 'g':
-                    cherrypy.tools.sessions.regenerate()
-                elif f[0] == 'd':
-                    s.delete()
-                elif f[0] == 'x':
-                    sessions.expire()
-                elif f[0] == 'S':
-                    # streamed response: the save hook defers session.save to on_end_request
-                    cherrypy.response.stream = True
-                else:
-                    raise common.HarnessError('bad hop ' + tok)
-                inst = cherrypy.serving.session
-                if w.first_loaded is None and inst.loaded:
-                    w.first_loaded = inst
-            return 'ok'
-
-    conf = {'/': {'tools.sessions.on': True, 'tools.sessions.timeout': timeout,
-                  'tools.sessions.clean_freq': 0}}
-    if backend == 'file':
-        conf['/']['tools.sessions.storage_class'] = sessions.FileSession
-        conf['/']['tools.sessions.storage_path'] = path
-    return cherrypy.Application(Root(), '', conf)
-
-
-def _wsgi(app, query, cookie):
-    env = {'REQUEST_METHOD': 'GET', 'PATH_INFO': '/', 'QUERY_STRING': query, 'SERVER_NAME': 'x',
-           'SERVER_PORT': '80', 'SERVER_PROTOCOL': 'HTTP/1.1', 'HTTP_HOST': 'x', 'wsgi.version': (1, 0),
-           'wsgi.url_scheme': 'http', 'wsgi.input': io.BytesIO(b''), 'wsgi.errors': io.StringIO(),
-           'wsgi.multithread': False, 'wsgi.multiprocess': False, 'wsgi.run_once': False,
-           'REMOTE_ADDR': '127.0.0.1'}
-    if cookie is not None:
-        env['HTTP_COOKIE'] = 'session_id=' + cookie
-    res = {}
-
-    def sr(status, headers, exc=None):
-        res['status'] = status
-        res['headers'] = headers
-    it = app(env, sr)
-    try:
-        body = b''.join(it)
-    finally:
-        if hasattr(it, 'close'):
-            it.close()
-    return res['status'], res['headers'], body
-
-
-def _parse_set_cookie(headers, now_epoch):
-    """-> (id or None, expired flag)."""
-    lines = [v for k, v in headers if k.lower() == 'set-cookie' and v.startswith('session_id=')]
-    if not lines:
-        return None, False
-    parts = lines[-1].split(';')
-    sid = parts[0].split('=', 1)[1]
-    if len(sid) >= 2 and sid[0] == '"' and sid[-1] == '"':
-        sid = sid[1:-1]
-    attrs = {}
-    for p in parts[1:]:
-        k, _, v = p.strip().partition('=')
-        attrs[k.lower()] = v
-    expired = False
-    if 'max-age' not in attrs and 'expires' in attrs:
-        try:
-            import email.utils
-            t = email.utils.parsedate_to_datetime(attrs['expires']).timestamp()
-            expired = t < now_epoch
-        except Exception:
-            expired = False
-    return sid, expired
-
-
-def _classify_blob(blob):
-    """What the harness' own pickle.load makes of a session file: ('g', data, exp_ticks) or ('b', cls)."""
-    try:
-        obj = pickle.loads(blob)
-    except EOFError:
-        return ('b', 'eof')
-    except pickle.UnpicklingError:
-        return ('b', 'unp')
-    except Exception:
-        return ('b', 'oth')
-    if (isinstance(obj, tuple) and len(obj) == 2 and isinstance(obj[0], dict)
-            and isinstance(obj[1], _datetime.datetime)):
-        return ('g', obj[0], _ticks(obj[1]))
-    return ('b', 'oth')
-
-
-def _ticks(dt):
-    sec = (dt - BASE).total_seconds()
-    if sec != int(sec) or int(sec) % 60:
-        return 'BADEXP(%r)' % sec
-    return int(sec) // 60
-
-
-def _show_dict(d):
-    if not d:
-        return '~'
-    return ','.join('%s=%s' % (k, d[k]) for k in sorted(d, key=lambda x: (isinstance(x, str), x)))
-
-
-# ----------------------------------------------------------------------------------------------
-# running one history on the real code
-# ----------------------------------------------------------------------------------------------
-def run_history(case):
-    """Execute a history on the real sessions code.
-
-    Returns {'items': [canonical per-op observation], 'model_line': str, 'events': [...]} where
-    `events` is the raw observation list consumed by the oracle.
-    """
-    import cherrypy
-    from cherrypy.lib import sessions
-    cherrypy.config.update({'environment': 'test_suite', 'log.screen': False})
-    backend, timeout = case['backend'], int(case['timeout'])
-    w = _World(case)
-    W[0] = w
-    saved = (sessions.datetime, sessions.time, sessions.os)
-    sessions.datetime, sessions.time, sessions.os = _DatetimeShim(), _TimeShim(), _OsShim()
-    real_generate_id = sessions.Session.generate_id
-    sessions.Session.generate_id = lambda self: w.generate_id(self, real_generate_id)
-    sessions.RamSession.cache.clear()
-    sessions.RamSession.locks.clear()
-    if hasattr(cherrypy, 'session'):
-        del cherrypy.session
-    tmp = tempfile.mkdtemp(prefix='c14-') if backend == 'file' else None
-    try:
-        app = _get_app(backend, timeout, tmp)
-
-        def spath(sid):
-            return _os.path.join(tmp, 'session-' + sid)
-
-        def listing():
-            """{real id: ('g', canon dict, exp) | ('b', cls)} of the durable store."""
-            out = {}
-            if backend == 'ram':
-                for sid, (data, exp) in sessions.RamSession.cache.items():
-                    out[sid] = ('g', canon_dict(data), _ticks(exp))
-            else:
-                for name in _os.listdir(tmp):
-                    if name.startswith('session-') and not name.endswith('.lock'):
-                        if not _os.path.isfile(_os.path.join(tmp, name)):
-                            out[name[8:]] = ('b', 'notafile')
-                            continue
-                        with open(_os.path.join(tmp, name), 'rb') as f:
-                            c = _classify_blob(f.read())
-                        out[name[8:]] = ('g', canon_dict(c[1]), c[2]) if c[0] == 'g' else c
-            return out
-
-        w.live = lambda: sorted(s for s in listing() if s in w.id_of)
-
-        def show_listing(ls):
-            if not ls:
-                return '~'
-            ents = []
-            for sid in sorted(ls, key=w.number):
-                e = ls[sid]
-                if e[0] == 'g':
-                    ents.append('%d:g:%s:%s' % (w.number(sid), e[2], _show_dict(e[1])))
-                else:
-                    ents.append('%d:b:%s' % (w.number(sid), e[1]))
-            return '!'.join(ents)
-
-        jars = {}          # client -> list of ids received (last = current, None = dropped)
-        items, mops, events = [], [], []
-        for op in case['ops']:
-            kind = op[0]
-            before = listing()
-            if kind == 'req':
-                _, client, spec, hops = op
-                cookie = _resolve_cookie(spec, jars, before, w)
-                if cookie is not None and cookie not in w.id_of:
-                    w.presented.add(cookie)
-                w.reads = []
-                # does the file path of this id leave the storage directory (C11's rule, recomputed here)?
-                escapes = bool(backend == 'file' and cookie is not None and '\x00' not in cookie and not
-                               _os.path.abspath(_os.path.join(tmp, 'session-' + cookie)).startswith(
-                                   _os.path.join(tmp, '')))
-                status, headers, body = _wsgi(app, 'ops=' + ','.join(hops), cookie)
-                code = status.split()[0]
-                sid, expired = _parse_set_cookie(headers, EPOCH + 60.0 * w.clock)
-                after = listing()
-                st = {'200': 'ok', '400': '400', '500': '500'}.get(code, code)
-                reads = list(w.reads)
-                items.append('R:%s:%s:%d:%s@%s' % (
-                    st, '-' if sid is None else w.number(sid), 1 if expired else 0,
-                    '/'.join(_show_dict(r) for r in reads) if reads else '-', show_listing(after)))
-                if cookie is None:
-                    mc = 'n'
-                elif escapes:
-                    mc = 'e%d' % w.number(cookie)
-                else:
-                    mc = 'i%d' % w.number(cookie)
-                mhops = [h for h in hops if h != 'S']     # streaming is not a model operation
-                mops.append('q/%s/%s' % (mc, '+'.join(mhops) if mhops else '-'))
-                events.append({'op': 'req', 'client': client, 'spec': spec, 'cookie': cookie, 'hops': hops,
-                               'status': st, 'sid': sid, 'expired': expired, 'reads': reads,
-                               'before': before, 'after': after, 'now': w.clock, 'escapes': escapes,
-                               'err': body[-600:].decode('utf-8', 'replace') if code == '500' else ''})
-                if sid is not None:
-                    j = jars.setdefault(client, [])
-                    if not j or j[-1] != sid:
-                        j.append(sid)
-                    if expired:
-                        j.append(None)
-            elif kind == 'adv':
-                w.clock += int(op[1])
-                items.append('done@' + show_listing(before))
-                mops.append('a%d' % int(op[1]))
-                events.append({'op': 'adv', 'd': int(op[1]), 'now': w.clock})
-            elif kind == 'sweep':
-                inst = w.first_loaded
-                out = 'done'
-                exc = ''
-                if inst is not None:
-                    try:
-                        inst.clean_up()
-                    except common.HarnessError:
-                        raise
-                    except Exception as e:      # the Monitor thread would die here
-                        out = 'aborted'
-                        exc = type(e).__name__
-                        if backend == 'file' and getattr(inst, 'locked', False):
-                            pass
-                after = listing()
-                items.append(out + '@' + show_listing(after))
-                if backend == 'file' and before:
-                    # the order in which (the sorted) os.listdir yields the session files
-                    mops.append('s' + ','.join(str(w.number(x)) for x in sorted(before)))
-                else:
-                    mops.append('s')
-                events.append({'op': 'sweep', 'out': out, 'exc': exc, 'before': before, 'after': after,
-                               'now': w.clock, 'ran': inst is not None})
-            elif kind == 'tear':
-                _, client, how, arg = op
-                j = [x for x in jars.get(client, []) if x is not None]
-                sid = j[-1] if j else None
-                done = False
-                cls = None
-                if backend == 'file' and sid is not None and sid in before and _os.path.isfile(spath(sid)):
-                    with open(spath(sid), 'rb') as f:
-                        blob = f.read()
-                    if how == 'cut':
-                        new = blob[:int(arg) % len(blob)] if blob else b''
-                    elif how == 'zero':
-                        new = b''
-                    elif how == 'garbage':
-                        new = GARBAGE_CONTRACT[int(arg) % len(GARBAGE_CONTRACT)]
-                    elif how == 'garbage_other':
-                        new = GARBAGE_OTHER[int(arg) % len(GARBAGE_OTHER)]
-                    else:
-                        raise common.HarnessError('bad tear kind %r' % how)
-                    with open(spath(sid), 'wb') as f:
-                        f.write(new)
-                    c = _classify_blob(new)
-                    if c[0] == 'g':
-                        raise common.HarnessError('tear produced a loadable file: %r' % new)
-                    cls = c[1]
-                    if how in ('cut', 'zero') and cls not in ('eof', 'unp'):
-                        raise common.HarnessError(
-                            'pickle contract broken: truncation at %d of %r raises class %s'
-                            % (len(new), blob, cls))
-                    done = True
-                    mops.append('t%d.%s' % (w.number(sid), cls))
-                else:
-                    mops.append('a0')
-                after = listing()
-                items.append('done@' + show_listing(after))
-                events.append({'op': 'tear', 'sid': sid if done else None, 'cls': cls, 'how': how,
-                               'now': w.clock, 'after': after, 'len': len(blob) if done else 0})
-            else:
-                raise common.HarnessError('bad op %r' % (op,))
-        if w.unknown and any(v in w.id_of.values() for v in w.unknown.values()):
-            raise common.HarnessError('id numbering clash')
-        line = '%s %d 1 %s %s' % (backend, timeout, ','.join(map(str, w.draws)) or '-', ';'.join(mops) or 'a0')
-        return {'items': items, 'model_line': line, 'events': events, 'draws': list(w.draws),
-                'ids': dict(w.id_of)}
-    finally:
-        sessions.datetime, sessions.time, sessions.os = saved
-        sessions.Session.generate_id = real_generate_id
-        sessions.RamSession.cache.clear()
-        sessions.RamSession.locks.clear()
-        W[0] = None
-        if tmp:
-            shutil.rmtree(tmp, ignore_errors=True)
-
-
-def _resolve_cookie(spec, jars, before, w):
-    f = spec.split(':')
-    k = f[0]
-
-    def cur(j):
-        ids = jars.get(int(j), [])
-        return ids[-1] if ids else None
-
-    def anyid(j):
-        ids = [x for x in jars.get(int(j), []) if x is not None]
-        return ids[-1] if ids else None
-    if k == 'none':
-        return None
-    if k == 'jar':
-        return cur(f[1])
-    if k == 'old':
-        ids = [x for x in jars.get(int(f[1]), []) if x is not None]
-        return ids[int(f[2]) % len(ids)] if ids else None
-    if k == 'unk':
-        return 'ffffffff%032x' % (int(f[1]) + 1)
-    if k == 'esc':
-        return ESCAPING[int(f[1]) % len(ESCAPING)]
-    if k == 'empty':
-        return ''
-    base = anyid(f[1])
-    if base is None:
-        return None
-    if k == 'lock':
-        return base + '.lock'
-    if k == 'upper':
-        return base.upper()
-    if k == 'sub':
-        return 'x/../session-' + base
-    if k == 'trail':
-        return base + '/'
-    if k == 'prefix':
-        return base[:20]
-    raise common.HarnessError('bad cookie spec %r' % spec)
-
-
-# ----------------------------------------------------------------------------------------------
-# oracle: the property statement evaluated on what the real code did (independent of the model)
-# ----------------------------------------------------------------------------------------------
 def oracle(case, events):
-    """Reference dict-with-expiry written from the statement.  Returns [(what, signature)].
-
-    ref: id -> {'alts': [dict, ...] acceptable contents, 'lo': t, 'hi': t}: data must be returned while
-    now < lo, must not be returned once now > hi (at lo..hi either: "until its timeout elapses" does
-    not say which side the boundary tick is on, and a read-only request may or may not renew it).
-    """
-    T = int(case['timeout'])
-    backend = case['backend']
-    bad = []
-    ref = {}
-    torn = {}
-    for n, ev in enumerate(events):
-        now = ev['now']
-        if ev['op'] == 'adv':
-            continue
-        if ev['op'] == 'tear':
-            if ev['sid'] is not None:
-                ref.pop(ev['sid'], None)
-                torn[ev['sid']] = ev['cls']
-            continue
-        if ev['op'] == 'sweep':
-            other = sorted(c for s, c in torn.items() if c == 'oth' and s in ev['before'])
-            if ev['out'] != 'done':
-                sig = 'F14d:garbage_file_other_exception_class' if other else 'sweep_raised:' + ev['exc']
-                bad.append(('op %d: the sweep was stopped by %s' % (n, ev['exc']), sig))
-                continue
-            if not ev['ran']:
-                continue
-            for sid, e in ref.items():
-                nonempty = all(a for a in e['alts'])
-                if now < e['lo'] and nonempty and sid in ev['before'] and sid not in ev['after']:
-                    bad.append(('op %d: sweep at t=%d removed live session (expires %d)' % (n, now, e['lo']),
-                                'sweep_removed_live'))
-            for sid in ev['after']:
-                if sid in ref and now > ref[sid]['hi']:
-                    bad.append(('op %d: sweep at t=%d left expired session (expired at %d)'
-                                % (n, now, ref[sid]['hi']), 'sweep_left_expired'))
-            for sid in list(ref):
-                if sid not in ev['after'] and now >= ref[sid]['lo']:
-                    del ref[sid]
-            for sid in ev['after']:
-                if sid not in ev['before']:
-                    bad.append(('op %d: sweep created an entry' % n, 'sweep_created'))
-            continue
-        # ---- request ----
-        c, sid, st = ev['cookie'], ev['sid'], ev['status']
-        before = ev['before']
-        garbage_other = c is not None and torn.get(c) == 'oth' and c in before
-        if st == '500':
-            sig = 'F14d:garbage_file_other_exception_class' if garbage_other else \
-                ('torn_file_error' if c in torn else 'request_500')
-            bad.append(('op %d: request answered 500: %s' % (n, ev['err'][-300:]), sig))
-            continue
-        if st == '400':
-            if not ev['escapes']:
-                bad.append(('op %d: request answered 400 for cookie %r' % (n, c), 'request_400'))
-            elif ev['after'] != before or sid is not None:
-                bad.append(('op %d: rejected request changed the store / set a cookie' % n, 'rejected_changed'))
-            continue
-        if st != 'ok':
-            bad.append(('op %d: status %s' % (n, st), 'status'))
-            continue
-        # (1) no fixation / fresh ids
-        if sid is None:
-            bad.append(('op %d: no session cookie in the response' % n, 'no_cookie'))
-            continue
-        if c is not None and sid == c:
-            if c not in before:
-                bad.append(('op %d: presented id %r adopted although the store holds nothing for it'
-                            % (n, c), 'fixation'))
-        else:
-            if not HEX40.match(sid):
-                bad.append(('op %d: issued id %r is not 40 hex digits' % (n, sid), 'id_shape'))
-            if sid in before:
-                bad.append(('op %d: issued id %r equals a live id' % (n, sid), 'fresh_id_is_live'))
-        # (2) contents seen by the handler
-        regen = any(h == 'g' for h in ev['hops'])
-        # the session the request starts with: the presented id whenever the statement demands that its
-        # data be served (the reference holds it), or when the code visibly adopted it.  With a regenerate
-        # in the handler the final id differs; adoption is then inferred from the store.
-        if c is not None and c in ref:
-            start_id = c
-        elif c is not None and c in before and (sid == c or regen):
-            start_id = c
-        else:
-            start_id = None
-        if start_id is not None and start_id in ref:
-            e = ref[start_id]
-            if now < e['lo']:
-                alts = [(dict(a), False) for a in e['alts']]
-            elif now > e['hi']:
-                alts = [({}, False)]
-            else:
-                alts = [(dict(a), False) for a in e['alts']] + [({}, False)]
-        else:
-            alts = [({}, False)]
-        cur = start_id if start_id is not None else None
-        changed = accessed = False
-        ri = 0
-        failed_here = False
-        for h in ev['hops']:
-            f = h.split('.')
-            if f[0] == 'r':
-                if ri >= len(ev['reads']):
-                    break
-                seen = ev['reads'][ri]
-                ri += 1
-                accessed = True
-                match = [(a, t) for a, t in alts if a == seen]
-                if not match:
-                    exp = [a for a, t in alts]
-                    what = 'op %d: handler read %r, the statement allows %r (t=%d)' % (n, seen, exp, now)
-                    if start_id in torn:
-                        sig = 'torn_file_data'
-                    elif not seen and any(a for a in exp):
-                        sig = 'live_data_lost'
-                    else:
-                        sig = 'dead_data_returned'
-                    bad.append((what, sig))
-                    failed_here = True
-                    break
-                clean = [m for m in match if not m[1]]
-                alts = clean[:1] if clean else match[:1]
-            elif f[0] == 'w':
-                alts = [(dict(a, **{}), t) for a, t in alts]
-                for a, t in alts:
-                    a[int(f[1])] = int(f[2]) % len(VALS)
-                changed = accessed = True
-            elif f[0] == 'k':
-                alts = [(dict(a), t) for a, t in alts]
-                for a, t in alts:
-                    a.pop(int(f[1]), None)
-                changed = accessed = True
-            elif f[0] == 'c':
-                alts = [({}, False)]
-                changed = accessed = True
-            elif f[0] == 'g':
-                if cur is not None:
-                    ref.pop(cur, None)
-                    torn.pop(cur, None)
-                cur = None
-                if not any(not a for a, t in alts):
-                    alts = alts + [({}, False)]
-            elif f[0] == 'd':
-                if cur is not None:
-                    ref.pop(cur, None)
-                    torn.pop(cur, None)
-                elif not any(h2 == 'g' for h2 in ev['hops']):
-                    ref.pop(sid, None)
-                alts = [({}, False)] + [(a, True) for a, t in alts if a]
-                changed = False
-        if failed_here:
-            ref.pop(sid, None)
-            continue
-        # dedupe
-        ded = []
-        for a, t in alts:
-            if not any(a == b and t == u for b, u in ded):
-                ded.append((a, t))
-        clean = [a for a, t in ded if not t]
-        continuing = start_id is not None and sid == start_id and sid in ref
-        if changed:
-            ref[sid] = {'alts': clean or [{}], 'lo': now + T, 'hi': now + T}
-            torn.pop(sid, None)
-        elif accessed and continuing:
-            ref[sid]['alts'] = clean or [{}]
-            ref[sid]['hi'] = max(ref[sid]['hi'], now + T)
-        elif accessed:
-            # a session that moved to a new id (regenerate) or was re-created after delete and only read:
-            # what it carries may or may not have been stored; either is fine by the statement
-            ref[sid] = {'alts': clean + ([{}] if {} not in clean else []), 'lo': now + T, 'hi': now + T}
-            torn.pop(sid, None)
-        # untouched otherwise
-        # entries other than the ones this request owned must still be in the store
-        for other in ref:
-            if other != sid and other != c and other in before and other not in ev['after']:
-                bad.append(('op %d: request removed the stored session of another id' % n, 'foreign_removed'))
-    return bad
+    return _oracle(case, events, model_timeout(case))
 
 
 # ----------------------------------------------------------------------------------------------
-# generator
-# ----------------------------------------------------------------------------------------------
-HOPS = ['r', 'w', 'k', 'c', 'g', 'd', 'x']
-HOP_W = [34, 30, 7, 3, 9, 9, 5]
-
-
-def gen_hops(rng, maxn=4):
-    n = rng.choice([0, 1, 1, 2, 2, 3, maxn])
-    out = []
-    for _ in range(n):
-        h = rng.choices(HOPS, weights=HOP_W)[0]
-        if h == 'w':
-            out.append('w.%d.%d' % (rng.randint(1, 3), rng.randrange(len(VALS))))
-        elif h == 'k':
-            out.append('k.%d' % rng.randint(1, 3))
-        else:
-            out.append(h)
-    if out and rng.random() < 0.5 and out[0] != 'r':
-        out.insert(0, 'r')
-    if rng.random() < 0.06:
-        out.insert(rng.randrange(len(out) + 1), 'S')
-    return out
-
-
-def gen_case(rng, backend=None, max_ops=40):
-    backend = backend or rng.choice(['ram', 'file'])
-    T = rng.choice([1, 2, 3])
-    ncl = rng.randint(1, 4)
-    budget = rng.choice([6, 12, 20, 30, max_ops])
-    ops = []
-    used = 0
-    now = 0
-    exp = {}         # client -> approximate expiry tick of its current session (generator's guess)
-    have = set()
-    nunk = 0
-    while used < budget:
-        r = rng.random()
-        if r < 0.60 or not have:
-            client = rng.randrange(ncl)
-            q = rng.random()
-            if client not in have:
-                spec = 'none' if q < 0.8 else ('unk:%d' % nunk)
-            elif q < 0.66:
-                spec = 'jar:%d' % client
-            elif q < 0.72:
-                spec = 'none'
-            elif q < 0.79:
-                spec = 'old:%d:%d' % (rng.choice(sorted(have)), rng.randrange(4))
-            elif q < 0.85:
-                nunk += 1
-                spec = 'unk:%d' % nunk
-            elif q < 0.90:
-                spec = 'jar:%d' % rng.choice(sorted(have))       # another client's id
-            else:
-                spec = rng.choice(['lock:%d', 'upper:%d', 'sub:%d', 'trail:%d', 'prefix:%d']) % \
-                    rng.choice(sorted(have)) if rng.random() < 0.7 else \
-                    rng.choice(['esc:%d' % rng.randrange(len(ESCAPING)), 'empty'])
-            hops = gen_hops(rng)
-            if used + 1 + len(hops) > max_ops:
-                hops = hops[:max(0, max_ops - used - 1)]
-            ops.append(['req', client, spec, hops])
-            used += 1 + len(hops)
-            have.add(client)
-            if any(h[0] in 'rwkc' for h in hops):
-                exp[client] = now + T
-        elif r < 0.80:
-            # advance: mostly aimed at an expiry boundary
-            targets = [e for e in exp.values() if e >= now]
-            if targets and rng.random() < 0.7:
-                t = rng.choice(targets) + rng.choice([-1, 0, 0, 1])
-                d = max(0, t - now)
-            else:
-                d = rng.choice([0, 1, 1, 2, T, T + 1])
-            ops.append(['adv', d])
-            now += d
-            used += 1
-        elif r < 0.93 or backend == 'ram':
-            ops.append(['sweep'])
-            used += 1
-        else:
-            client = rng.choice(sorted(have))
-            how = rng.choices(['cut', 'zero', 'garbage'], weights=[6, 1, 2])[0]
-            ops.append(['tear', client, how, rng.randrange(1000)])
-            used += 1
-            exp.pop(client, None)
-    dups = []
-    if rng.random() < 0.45:
-        for k in range(12):
-            if rng.random() < 0.3:
-                dups.append([k, rng.randrange(8)])
-    return {'backend': backend, 'timeout': T, 'idseed': rng.randrange(1 << 30), 'dups': dups, 'ops': ops}
-
-
-def torn_cases(rng, nfiles):
-    """Every truncation offset of real saved files (+ zero-length + contract-class garbage): the torn
-    file sits between two expired sessions in listing order, so the sweep has to get past it."""
-    out = []
-    for fi in range(nfiles):
-        T = rng.choice([1, 2, 3])
-        writes = ['w.%d.%d' % (rng.randint(1, 3), rng.randrange(len(VALS))) for _ in range(rng.randint(0, 4))]
-        pre = [['req', 0, 'none', ['w.1.1']], ['req', 1, 'none', ['r'] + writes], ['req', 2, 'none', ['w.2.2']]]
-        # length of the file this history saves, measured by a dry run on the real code
-        dry = run_history({'backend': 'file', 'timeout': T, 'idseed': fi, 'ops': pre + [['tear', 1, 'zero', 0]]})
-        n = dry['events'][-1]['len']
-        tails = [[['adv', T + 1], ['sweep'], ['req', 1, 'jar:1', ['r']], ['req', 1, 'jar:1', ['r', 'w.3.3']],
-                  ['req', 1, 'jar:1', ['r']]],
-                 [['req', 1, 'jar:1', ['r']], ['adv', T], ['sweep'], ['req', 0, 'jar:0', ['r']]]]
-        for off in range(n):
-            out.append({'backend': 'file', 'timeout': T, 'idseed': fi, 'ops':
-                        pre + [['tear', 1, 'cut', off]] + tails[off % 2], 'torn': [fi, off, n]})
-        for g in range(len(GARBAGE_CONTRACT)):
-            out.append({'backend': 'file', 'timeout': T, 'idseed': fi, 'ops':
-                        pre + [['tear', 1, 'garbage', g]] + tails[g % 2], 'torn': [fi, 'garbage', g]})
-    return out
-
-
-
-# ----------------------------------------------------------------------------------------------
-# table regenerated from the live module on every run: which exception classes of pickle.load does
-# FileSession._load turn into "no session"?  Measured by executing the real `_load` with a `pickle`
-# whose `load` raises the class (never by reading source text).
+# tables regenerated from the live module on every run (measured by executing the real code)
 # ----------------------------------------------------------------------------------------------
 OTHER_CLASSES = [ValueError, TypeError, AttributeError, ImportError, ModuleNotFoundError, IndexError, KeyError,
                  UnicodeDecodeError, OverflowError, MemoryError, RuntimeError, AssertionError]
@@ -868,6 +69,39 @@ def _load_catches(exc_factory):
         shutil.rmtree(tmp, ignore_errors=True)
 
 
+def _regen_passes():
+    """Which arguments does SessionTool.regenerate hand on to set_response_cookie?  Measured by calling it
+    with a tool configuration that has every argument and a recording set_response_cookie."""
+    import cherrypy
+    from cherrypy import _cptools
+    keys = ['path', 'path_header', 'name', 'timeout', 'domain', 'secure', 'httponly', 'persistent']
+    got = {}
+
+    class _S:
+        def regenerate(self):
+            pass
+    tool = _cptools.SessionTool()
+    tool._merged_args = lambda d=None: {k: 'v' for k in keys}
+    mod = _cptools._sessions
+    saved = mod.set_response_cookie
+    had = hasattr(cherrypy.serving, 'session')
+    old = getattr(cherrypy.serving, 'session', None)
+    mod.set_response_cookie = lambda **kw: got.update(kw)
+    cherrypy.serving.session = _S()
+    try:
+        tool.regenerate()
+    finally:
+        mod.set_response_cookie = saved
+        if had:
+            cherrypy.serving.session = old
+        else:
+            try:
+                del cherrypy.serving.session
+            except AttributeError:
+                pass
+    return {k: (k in got) for k in keys}
+
+
 def tables(ctx):
     from cherrypy.lib import sessions
     eof = _load_catches(EOFError)
@@ -895,9 +129,22 @@ def tables(ctx):
         gid = sessions.Session.generate_id(sessions.Session.__new__(sessions.Session))
     finally:
         sessions.os = saved
+    sig = inspect.signature(sessions.init).parameters
+    sig2 = inspect.signature(sessions.set_response_cookie).parameters
+
+    def dflt(name, params=sig):
+        return params[name].default if name in params else 'MISSING'
+    rp = _regen_passes()
+
+    def b(x):
+        return 'true' if x else 'false'
+
+    def nat(x):
+        return str(x) if isinstance(x, int) and not isinstance(x, bool) and x >= 0 else '999999'
     src = """/- GENERATED by harness/c14.py `tables` from the live cherrypy.lib.sessions - do not edit.
-   Each entry is measured by executing the real code (FileSession._load with a pickle whose load
-   raises the class; Session.generate_id with a recording urandom). -/
+   Each entry is measured by executing / introspecting the real code (FileSession._load with a pickle whose
+   load raises the class; Session.generate_id with a recording urandom; the signature of sessions.init;
+   SessionTool.regenerate with a recording set_response_cookie). -/
 import CpModel.SessionStore
 namespace CpModel.Gen.C14
 open CpModel.SessionStore
@@ -916,41 +163,118 @@ def missingFileIsNone : Bool := %s
 def idBytes : Nat := %d
 def idTextLen : Nat := %d
 
+/-- defaults of `sessions.init` / `set_response_cookie` / the Session class -/
+def defNameIsSessionId : Bool := %s
+def defTimeout : Nat := %s
+def defCleanFreq : Nat := %s
+def defPersistent : Bool := %s
+def defSecure : Bool := %s
+def defHttponly : Bool := %s
+def defPathNone : Bool := %s
+def defPathHeaderNone : Bool := %s
+def defDomainNone : Bool := %s
+def classTimeout : Nat := %s
+def classCleanFreq : Nat := %s
+def cookieDefTimeout : Nat := %s
+
+/-- which tool arguments `SessionTool.regenerate` passes on to `set_response_cookie` -/
+def regenPassesPath : Bool := %s
+def regenPassesPathHeader : Bool := %s
+def regenPassesName : Bool := %s
+def regenPassesTimeout : Bool := %s
+def regenPassesDomain : Bool := %s
+def regenPassesSecure : Bool := %s
+def regenPassesHttponly : Bool := %s
+def regenPassesPersistent : Bool := %s
+
 end CpModel.Gen.C14
-""" % (', '.join(c.__name__ for c in OTHER_CLASSES), str(eof).lower(), str(unp).lower(),
-       str(len(oth) == len(OTHER_CLASSES)).lower(), str(missing_file).lower(),
-       drawn[0] if drawn else 0, len(gid))
+""" % (', '.join(c.__name__ for c in OTHER_CLASSES), b(eof), b(unp), b(len(oth) == len(OTHER_CLASSES)),
+       b(missing_file), drawn[0] if drawn else 0, len(gid),
+       b(dflt('name') == 'session_id' and dflt('name', sig2) == 'session_id'), nat(dflt('timeout')),
+       nat(dflt('clean_freq')), b(dflt('persistent') is True), b(dflt('secure') is True),
+       b(dflt('httponly') is True), b(dflt('path') is None), b(dflt('path_header') is None),
+       b(dflt('domain') is None), nat(sessions.Session.timeout), nat(sessions.Session.clean_freq),
+       nat(dflt('timeout', sig2)),
+       b(rp['path']), b(rp['path_header']), b(rp['name']), b(rp['timeout']), b(rp['domain']), b(rp['secure']),
+       b(rp['httponly']), b(rp['persistent']))
     if oth and len(oth) != len(OTHER_CLASSES):
         ctx.note('FileSession._load catches some but not all other classes: %s' % oth)
     return {'CpModel/Gen/C14Tables.lean': src}
+
+
+# ----------------------------------------------------------------------------------------------
+# comparison with the model
+# ----------------------------------------------------------------------------------------------
+def _parse_item(it):
+    """-> (kind, [response field lists], listing entries, raw listing)"""
+    out, _, ls = it.partition('@')
+    ents = [] if ls in ('~', '') else [e.split(':', 1) for e in ls.split('!')]
+    if out.startswith('R:'):
+        return 'R', [out[2:].split(':')], ents, ls
+    if out.startswith('O:'):
+        return 'O', [r.split(':') for r in out[2:].split('|')], ents, ls
+    return out, [], ents, ls
+
 
 def compress_ids(items):
     """Ids are nominal: replace the numbers of source-drawn ids (< UNKNOWN_BASE) by their rank among the
     ids appearing in this history, on either side (numbering by draw is monotone on both sides, so equal
     behaviour gives equal ranks even when an intermediate draw was never observed)."""
     seen = set()
-    parsed = []
-    for it in items:
-        out, _, ls = it.partition('@')
-        f = out.split(':', 4) if out.startswith('R:') else None
-        ents = [] if ls in ('~', '') else [e.split(':', 1) for e in ls.split('!')]
-        if f and f[2] != '-':
-            seen.add(int(f[2]))
+    parsed = [_parse_item(it) for it in items]
+    for kind, resps, ents, ls in parsed:
+        for f in resps:
+            if len(f) > 1 and f[1] != '-':
+                seen.add(int(f[1]))
+            for x in f:
+                if x[:2] in ('Pi', 'Pe'):
+                    seen.add(int(x[2:]))
         for e in ents:
             seen.add(int(e[0]))
-        parsed.append((out, f, ents, ls))
     rank = {v: k + 1 for k, v in enumerate(sorted(x for x in seen if x < UNKNOWN_BASE))}
     res = []
-    for out, f, ents, ls in parsed:
-        if f and f[2] != '-':
-            f = f[:2] + [str(rank.get(int(f[2]), int(f[2])))] + f[3:]
-            out = ':'.join(f)
+    for kind, resps, ents, ls in parsed:
+        outs = []
+        for f in resps:
+            f = list(f)
+            if len(f) > 1 and f[1] != '-':
+                f[1] = str(rank.get(int(f[1]), int(f[1])))
+            for j, x in enumerate(f):
+                if x[:2] in ('Pi', 'Pe'):
+                    f[j] = x[:2] + str(rank.get(int(x[2:]), int(x[2:])))
+            outs.append(':'.join(f))
+        head = kind if kind not in ('R', 'O') else kind + ':' + '|'.join(outs)
         l2 = '!'.join('%s:%s' % (rank.get(int(e[0]), int(e[0])), e[1]) for e in ents) if ents else ls
-        res.append(out + '@' + l2)
+        res.append(head + '@' + l2)
     return res
 
 
-# ----------------------------------------------------------------------------------------------
+def _canon_model_items(mitems, ritems):
+    """Fields the real side cannot observe are blanked on the model side: the cookie attributes of a request
+    that called Session.regenerate() directly (`Cskip`), the presented cookie when the handler never ran."""
+    out = []
+    for m, r in zip(mitems, ritems):
+        if m[:2] in ('R:', 'O:') and r[:2] == m[:2]:
+            mh, _, ml = m.partition('@')
+            rh = r.partition('@')[0]
+            mr, rr = mh[2:].split('|'), rh[2:].split('|')
+            if len(mr) == len(rr):
+                fixed = []
+                for a, b in zip(mr, rr):
+                    fa, fb = a.split(':'), b.split(':')
+                    if len(fa) == len(fb):
+                        for j in range(len(fa)):
+                            if fb[j] == 'Cskip' and fa[j].startswith('C'):
+                                fa[j] = 'Cskip'
+                                fa[2] = fb[2]       # nor is the expired flag (no set_response_cookie ran)
+                            if fb[j] == 'P-' and fa[j].startswith('P'):
+                                fa[j] = 'P-'
+                    fixed.append(':'.join(fa))
+                m = m[:2] + '|'.join(fixed) + '@' + ml
+        out.append(m)
+    return out + mitems[len(ritems):]
+
+
 def check_cases(ctx, cases, compare=True, shrink=True):
     kept, results = [], []
     for c in cases:
@@ -980,15 +304,26 @@ def _crash_verdict(ctx):
 
 
 def _report(ctx, cases, results, compare=True, shrink=True):
-    lines = [r['model_line'] for r in results]
-    model = ctx.model(lines) if compare else None
+    lines, where = [], []
+    for i, r in enumerate(results):
+        if r.get('model_line'):
+            where.append((i, 'h'))
+            lines.append(r['model_line'])
+        if r.get('mon_line'):
+            where.append((i, 'm'))
+            lines.append(r['mon_line'])
+    out = ctx.model(lines) if compare else None
+    model = {}
+    if out is not None:
+        for (i, k), o in zip(where, out):
+            model[(i, k)] = o
     for idx, (case, res) in enumerate(zip(cases, results)):
         evs = res['events']
-        nreq = sum(1 for e in evs if e['op'] == 'req')
-        adopted = sum(1 for e in evs if e['op'] == 'req' and e['cookie'] is not None and e['sid'] == e['cookie'])
-        nontrivial = nreq >= 2 and adopted >= 1
+        reqs = [e for e in evs if e['op'] == 'req'] + [x for e in evs if e['op'] == 'par' for x in (e['A'], e['B'])]
+        adopted = sum(1 for e in reqs if e['sid'] is not None and e['sid'] in e['presented'])
+        nontrivial = len(reqs) >= 2 and adopted >= 1
         ctx.case(case, nontrivial=nontrivial, key=json.dumps([case['backend'], case['timeout'], case['ops'],
-                                                              case.get('dups')]))
+                                                              case.get('dups'), case.get('cc')]))
         _count(ctx, case, evs)
         fails = oracle(case, evs)
         known_only = True
@@ -1004,16 +339,19 @@ def _report(ctx, cases, results, compare=True, shrink=True):
                     case, res, fails = case2, res2, fails2
         for what, sig in fails:
             ctx.oracle_fail(case, '%s [%s, T=%s]' % (what, case['backend'], case['timeout']), sig)
-        if model is not None and (not fails or known_only):
+        if out is not None and (idx, 'h') in model and (not fails or known_only) and res is results[idx]:
             ctx.compared()
-            mitems = compress_ids(model[idx].split(';'))
-            res = dict(res, items=compress_ids(res['items']))
-            if mitems != res['items']:
-                k = next((i for i, (a, b) in enumerate(zip(res['items'], mitems)) if a != b),
-                         min(len(mitems), len(res['items'])))
-                ctx.disagree(case, res['items'][k:k + 1], mitems[k:k + 1],
+            ritems = compress_ids(res['items'])
+            mitems = compress_ids(_canon_model_items(model[(idx, 'h')].split(';'), res['items']))
+            if mitems != ritems:
+                k = next((i for i, (a, b) in enumerate(zip(ritems, mitems)) if a != b),
+                         min(len(mitems), len(ritems)))
+                ctx.disagree(case, ritems[k:k + 1], mitems[k:k + 1],
                              'op %d (%s) of the history: observables differ' % (k, json.dumps(case['ops'][k])
                                                                                  if k < len(case['ops']) else '?'))
+            elif (idx, 'm') in model and model[(idx, 'm')] != res['mon_real']:
+                ctx.disagree(case, res['mon_real'], model[(idx, 'm')],
+                             'cleanup Monitors started by the loads %s' % res['mon_line'])
 
 
 def _shrink(case, sigs):
@@ -1022,6 +360,8 @@ def _shrink(case, sigs):
         try:
             r = run_history(c)
         except common.HarnessError:
+            return False
+        except Exception:
             return False
         return any(s in sigs for _, s in oracle(c, r['events']))
     try:
@@ -1035,31 +375,51 @@ def _count(ctx, case, evs):
     ctx.count('backend:' + case['backend'])
     ctx.count('timeout:%s' % case['timeout'])
     n = len(case['ops']) + sum(len(o[3]) for o in case['ops'] if o[0] == 'req')
-    ctx.count('ops:%s' % ('<=10' if n <= 10 else '<=20' if n <= 20 else '<=30' if n <= 30 else '<=40'))
-    if case.get('dups'):
-        ctx.count('with_id_collisions')
+    ctx.count('ops:%s' % ('<=10' if n <= 10 else '<=20' if n <= 20 else '<=30' if n <= 30 else '<=40+'))
+    for k in ('dups', 'cc', 'debug', 'locking'):
+        if case.get(k):
+            ctx.count('with_' + k)
+    if case.get('spell'):
+        ctx.count('storage_spelling:' + case['spell'])
+    if 'clean_freq' in case:
+        ctx.count('clean_freq:%s' % case['clean_freq'])
     if case.get('small') is not None:
         ctx.count('small_scope_histories')
     if case.get('torn'):
         ctx.count('torn:all_offsets_cases')
         ctx.extra.setdefault('_torn_files', set()).add((case['torn'][0], case['timeout']))
+
+    def req(e, tag=''):
+        k = e['spec'].split(':')[0].split('~')[0]
+        ctx.count('cookie:' + k)
+        ctx.count('status:' + e['status'])
+        if len(e['presented']) > 1:
+            ctx.count('cookie:several_session_cookies')
+        if not e['presented']:
+            ctx.count('id:new(no cookie)')
+        elif e['sid'] in e['presented']:
+            ctx.count('id:adopted')
+            ent = e['before'].get(e['sid'])
+            if ent and ent[0] == 'g' and isinstance(ent[2], int) and ent[2] < e['now']:
+                ctx.count('id:adopted(expired, not yet swept)')
+        else:
+            ctx.count('id:new(cookie refused)')
+        for h in e['hops']:
+            f = h.split('.')
+            ctx.count('hop:' + (f[0] if f[0] != 'A' else 'A.' + f[1]))
+        for r in e['reads']:
+            ctx.count('read:nonempty' if r else 'read:empty')
     for e in evs:
         if e['op'] == 'req':
-            k = e['spec'].split(':')[0]
-            ctx.count('cookie:' + k)
-            ctx.count('status:' + e['status'])
-            if e['cookie'] is None:
-                ctx.count('id:new(no cookie)')
-            elif e['sid'] == e['cookie']:
-                ctx.count('id:adopted')
-            else:
-                ctx.count('id:new(cookie refused)')
-            for h in e['hops']:
-                ctx.count('hop:' + h.split('.')[0])
-            for r in e['reads']:
-                ctx.count('read:nonempty' if r else 'read:empty')
+            req(e)
+        elif e['op'] == 'par':
+            ctx.count('overlap')
+            if e['A']['presented'] and e['A']['presented'] == e['B']['presented']:
+                ctx.count('overlap:same_cookie')
+            req(e['A'])
+            req(e['B'])
         elif e['op'] == 'sweep':
-            ctx.count('sweep:removed=%d' % min(3, len(e['before']) - len(e['after'])))
+            ctx.count('sweep:removed=%d' % min(3, len(e['before']) - len(e['after'])) if e['ran'] else 'sweep:no_monitor')
         elif e['op'] == 'tear':
             ctx.count('tear:%s:%s' % (e['how'], e['cls']))
         elif e['op'] == 'adv':
@@ -1080,70 +440,140 @@ def _work(args):
     """Worker for the thorough tier: generate and run a chunk of histories."""
     import random
     seed, n = args
+    c14_cov.start()
     rng = random.Random(seed)
     cases = [gen_case(rng) for _ in range(n)]
-    return cases, [run_history(c) for c in cases]
+    return cases, [run_history(c) for c in cases], c14_cov.take()
 
 
 def _work_cases(cases):
-    return cases, [run_history(c) for c in cases]
+    c14_cov.start()
+    return cases, [run_history(c) for c in cases], c14_cov.take()
 
 
-SMALL_ALPHABET = [
-    ['req', 0, 'jar:0', ['r']],
-    ['req', 0, 'jar:0', ['w.1.1']],
-    ['req', 0, 'jar:0', ['r', 'd']],
-    ['req', 0, 'jar:0', ['r', 'g']],
-    ['req', 0, 'jar:0', []],
-    ['req', 1, 'jar:0', ['r', 'w.2.2']],      # a second client presenting the first one's id
-    ['req', 0, 'unk:1', ['r']],
-    ['req', 0, 'old:0:0', ['r']],             # the first id the client ever received
-    ['adv', 1],
-    ['sweep'],
-]
+def check_monitor(ctx, scenarios):
+    lines, reals = [], []
+    for sc in scenarios:
+        try:
+            line, real = run_monitor_scenario(sc)
+        except common.HarnessError:
+            raise
+        except Exception as e:
+            ctx.oracle_fail({'monitor_loads': sc}, 'Session.load() raised %r while starting the cleanup Monitor'
+                            % (e,), 'monitor_load_raised')
+            continue
+        lines.append(line)
+        reals.append((sc, real))
+    out = ctx.model(lines)
+    for (sc, real), m in zip(reals, out or []):
+        ctx.case({'monitor_loads': sc}, nontrivial=len(sc) >= 2, key='mon' + json.dumps(sc))
+        ctx.count('monitor_scenarios')
+        ctx.compared()
+        if m != real:
+            ctx.disagree({'monitor_loads': sc}, real, m, 'cleanup Monitors started by a sequence of load() calls')
+        # the statement's sweep exists only if a Monitor is started for a class configured with clean_freq
+        want = {c for c, f in sc if f}
+        got = {int(x.split(':')[0]) for x in real.split(';', 1)[1].split(',') if x}
+        if want - got:
+            ctx.oracle_fail({'monitor_loads': sc}, 'no cleanup Monitor was started for session class(es) %s although '
+                            'clean_freq is set: expired sessions are never swept' % sorted(want - got),
+                            'sweeper_not_started')
 
 
-def enum_small(depth):
-    """Systematic small scope: every sequence of exactly `depth` operations over a 10/11-symbol alphabet
-    (timeout 1 tick, so expiry-1 / expiry / expiry+1 are all reached), both backends.  Observations are
-    per operation, so the shorter sequences are covered as prefixes."""
-    import itertools
-    for backend in ('ram', 'file'):
-        alpha = SMALL_ALPHABET + ([['tear', 0, 'cut', 7]] if backend == 'file' else [])
-        for seq in itertools.product(range(len(alpha)), repeat=depth):
-            yield {'backend': backend, 'timeout': 1, 'idseed': 0, 'ops': [alpha[k] for k in seq],
-                   'small': list(seq)}
+def check_independence(ctx, cases):
+    """The id issued instead of a refused cookie must not be computable from what the client sent: the same
+    history with other unknown cookie texts (same clock, same urandom stream) issues the same ids.  Skipped
+    when the id source is not reproducible in the first place (e.g. `secrets`)."""
+    n = 0
+    for case in cases:
+        if not any(o[0] == 'req' and 'unk' in o[2] for o in case['ops']):
+            continue
+        try:
+            a = run_history(case)
+            a2 = run_history(case)
+            b = run_history(dict(case, unkp='0123abcd'))
+        except common.HarnessError:
+            raise
+        except Exception:
+            continue
+
+        def issued(r):
+            return [e['sid'] for e in r['events'] if e['op'] == 'req' and e['sid'] is not None
+                    and e['sid'] not in e['presented']]
+        if issued(a) != issued(a2):
+            ctx.count('independence:id_source_not_reproducible')
+            continue
+        n += 1
+        ctx.count('independence:compared')
+        if issued(a) != issued(b):
+            ctx.oracle_fail(dict(case, unkp='0123abcd'),
+                            'the ids issued in place of refused cookies change with the text of the presented '
+                            '(unknown) cookie: %r vs %r' % (issued(a)[:3], issued(b)[:3]),
+                            'fresh_id_depends_on_presented_cookie')
+            break
+    ctx.extra['independence_histories_compared'] = n
+
+
+def _explain(rel, qual, src):
+    if 'debug' in src or 'cherrypy.log(' in src:
+        return None
+    if qual.startswith('MemcachedSession.__len__'):
+        return None
+    if "raise ValueError('The httponly cookie token is not supported.')" in src:
+        return 'needs an http.cookies without the httponly attribute (Python < 2.6)'
+    if qual.startswith('MemcachedSession._save') and ('raise AssertionError' in src or 'not set.' in src):
+        return 'needs a memcached server that refuses a set()'
+    if qual.startswith('RamSession.clean_up') and ('except KeyError' in src or src == 'pass'):
+        return 'needs a concurrent deletion between the copy and the del (locking, C13)'
+    if qual.startswith('FileSession.__init__') and ('raise ValueError' in src or 'Lock timeout must' in src):
+        return 'configuration error (lock_timeout of a wrong type): every request would be a 500'
+    if qual in ('save', 'init') and src == 'return':
+        return 'guard against the hook running twice / without a session: needs the tool attached twice'
+    return None
 
 
 def run(ctx):
+    cov = c14_cov.start()
+    hits = []
     for e in ctx.known:
         if e.get('status') == 'known' and 'ops' in e.get('witness', {}):
             check_cases(ctx, [e['witness']], compare=True, shrink=False)
     check_cases(ctx, corpus_cases())
     measure_contract(ctx)
+    check_monitor(ctx, monitor_scenarios(ctx.rng, ctx.budget(40, 400)))
     if ctx.quick():
-        cases = [gen_case(ctx.rng) for _ in range(ctx.budget(1300, 0))]
+        cases = [gen_case(ctx.rng) for _ in range(ctx.budget(1000, 0))]
         check_cases(ctx, cases)
+        check_cases(ctx, overlap_cases(ctx.rng, 90))
         check_cases(ctx, torn_cases(ctx.rng, 1))
         small = list(enum_small(3))
         check_cases(ctx, small)
         ctx.extra['exhaustive_small_scope'] = {'depth': 3, 'histories': len(small)}
+        check_independence(ctx, cases[:60])
     else:
         seeds = [(ctx.rng.randrange(1 << 40), 2500) for _ in range(48)]
-        for cases, results in common.parallel_map(_work, seeds):
+        for cases, results, h in common.parallel_map(_work, seeds):
+            hits.extend(h)
             _report(ctx, cases, results)
-        tc = torn_cases(ctx.rng, 50)
+        tc = torn_cases(ctx.rng, 50) + overlap_cases(ctx.rng, 3000)
         chunks = [tc[i::32] for i in range(32)]
-        for cases, results in common.parallel_map(_work_cases, [c for c in chunks if c]):
+        for cases, results, h in common.parallel_map(_work_cases, [c for c in chunks if c]):
+            hits.extend(h)
             _report(ctx, cases, results)
-    if not ctx.quick():
         small = list(enum_small(4))
         chunks = [small[i::32] for i in range(32)]
-        for cases, results in common.parallel_map(_work_cases, chunks):
+        for cases, results, h in common.parallel_map(_work_cases, chunks):
+            hits.extend(h)
             _report(ctx, cases, results)
         ctx.extra['exhaustive_small_scope'] = {'depth': 4, 'histories': len(small)}
+        import random
+        rng = random.Random(ctx.rng.randrange(1 << 40))
+        check_independence(ctx, [gen_case(rng) for _ in range(600)])
     _crash_verdict(ctx)
     ctx.extra['torn_files_all_offsets'] = len(ctx.extra.pop('_torn_files', ()))
+    if cov is not None:
+        hits.extend(c14_cov.take())
+        c14_cov.report(ctx, hits + list(cov.hit), _explain)
 
 
 def measure_contract(ctx):
@@ -1168,26 +598,32 @@ def measure_contract(ctx):
 def search(ctx, around=None):
     """Deeper oracle-only hunt (called when the proof or the correspondence broke)."""
     import random
-    backend = around['backend'] if around else None
     seeds = [(ctx.rng.randrange(1 << 40), 350) for _ in range(16)]
-    for cases, results in common.parallel_map(_work, seeds):
-        if backend:
-            pass
+    for cases, results, _ in common.parallel_map(_work, seeds):
         _report(ctx, cases, results, compare=False, shrink=False)
         if ctx.oracle_failures:
             break
     if not ctx.oracle_failures:
-        tc = torn_cases(random.Random(ctx.seed), 2)
-        check_cases(ctx, tc, compare=False, shrink=False)
+        rng = random.Random(ctx.seed)
+        check_cases(ctx, torn_cases(rng, 2) + overlap_cases(rng, 300), compare=False, shrink=False)
+    if not ctx.oracle_failures:
+        check_independence(ctx, [gen_case(random.Random(ctx.seed + 1)) for _ in range(300)])
 
 
 def replay(ctx, case):
+    if 'monitor_loads' in case:
+        line, real = run_monitor_scenario([tuple(x) for x in case['monitor_loads']])
+        print('loads:', case['monitor_loads'], '\n  impl :', real, '\n  model:', (ctx.model([line]) or ['?'])[0])
+        check_monitor(ctx, [[tuple(x) for x in case['monitor_loads']]])
+        return
     res = run_history(case)
     print('history:', json.dumps(case['ops']))
-    m = ctx.model([res['model_line']])
+    m = ctx.model([res['model_line']]) if res.get('model_line') else None
     mitems = m[0].split(';') if m else None
     for i, it in enumerate(res['items']):
-        print('  op %2d %-40s impl : %s' % (i, json.dumps(case['ops'][i])[:40], it))
+        print('  op %2d %-40s impl : %s' % (i, json.dumps(case['ops'][i])[:40] if i < len(case['ops']) else '', it))
         if mitems:
             print('  %s model: %s' % (' ' * 46, mitems[i] if i < len(mitems) else '?'))
     check_cases(ctx, [case], shrink=False)
+    if case.get('unkp'):
+        check_independence(ctx, [dict(case, unkp='ffffffff')])
